@@ -201,14 +201,14 @@ pub fn wide_regions(f: Func, f32: bool) -> Vec<WideRegion> {
         Func::Exp2 => vec![("wide:far", lin(20.0, e2max))],
         Func::Ln | Func::Log(_) | Func::Log2 | Func::Log10 => vec![("wide:tiny", posr(lo, 0.05)), ("wide:huge", posr(1e6, hi))],
         Func::Ln1p => vec![("wide:huge", posr(100.0, hi)), ("wide:near-1", Box::new(|r: &mut Rng| -1.0 + r.logu(1e-3, 0.1)))],
-        Func::Sin | Func::Cos => vec![("wide:huge", both(50.0, if f32 { 1e4 } else { 1e8 }))],
+        Func::Sin | Func::Cos => vec![("wide:huge", both(50.0, if f32 { 1e4 } else { 1e8 })), ("wide:tiny", both(lo, 1e-3))],
         Func::Tan => vec![(
             "wide:many-periods",
             Box::new(move |r: &mut Rng| {
                 let k = r.int(-100000, 100000) as f64 * if f32 { 0.01 } else { 1.0 };
                 k.round() * std::f64::consts::PI + r.range(-1.45, 1.45)
             }),
-        )],
+        ), ("wide:tiny", both(lo, 1e-3))],
         Func::Asin | Func::Acos | Func::Atanh => vec![("wide:near-end", lin(0.9, 0.99))],
         Func::Atan | Func::Asinh => vec![("wide:huge", both(1e3, hi)), ("wide:tiny", both(lo, 0.05))],
         Func::Sinh | Func::Cosh => vec![("wide:far", lin(10.0, emax)), ("wide:tiny", both(lo, 1e-9))],
